@@ -1,5 +1,5 @@
 # replay of a bounded stand-in violation (C16): re-run native/c16_states.py
 import sys
-print('bosonic n=2 pure=False cat: reduced_dm([0]) has shape (8, 8, 8, 8), expected two indices per mode')
+print('n=2 pure=False cat: quad_expectation(0,0.0) = [-0.02052, 0.67649] on bosonic, [-0.02052, 1.74967] on fock')
 print('REPLAY-VIOLATION')
 sys.exit(1)
